@@ -23,16 +23,25 @@ THEOREMS = [
     "TornadoModel.C25.last_wins",
     "TornadoModel.C25.jar_names_unique",
     "TornadoModel.C25.ending_keeps_cookies",
+    "TornadoModel.C25.raised_call_no_effect",
+    "TornadoModel.C25.flush_never_fails",
+    "TornadoModel.C25.response_always_sent",
+    "TornadoModel.C25.accepted_attrs_kwargs",
+    "TornadoModel.C25.accepted_readback",
+    "TornadoModel.C25.returned_call_sent",
 ]
 TRUSTED = [
     "CPython 3.12 http.cookies (_LegalChars, _Translator, _quote, Morsel.set/__setitem__/OutputString, SimpleCookie.__setitem__) as written in C25/Model.lean — diffed on every run",
     "str.split/strip/lower, re character classes, str.decode('utf-8') (Lean core `String.fromUTF8?`)",
-    "httputil.format_timestamp (clock + email.utils.formatdate) and create_signed_value (HMAC) are external: the model receives their outputs, the oracle checks the date against a strict IMF-fixdate pattern",
+    "create_signed_value (HMAC, time.time()) is external: the model receives the signed value the call computed",
+    "the clock: tornado.web sees a pinned datetime.now() (harness shim, NOW = %d); the expires text the model and the oracle expect is computed by the "
+    "harness itself from the call's arguments (expires / NOW + expires_days / NOW - 365 d for clear_cookie) with its own IMF-fixdate formatter - "
+    "not taken from httputil.format_timestamp / email.utils.formatdate, which are thereby part of what is checked" % 1790000000,
 ]
 ASSUMPTIONS = [
     "name/value are str or bytes; domain/path/samesite are str or None; max_age is an int; httponly/secure are bools; expires is a number (or expires_days)",
     "deprecated keyword arguments carry str values, or bools for HttpOnly/Secure; every key is spelled so that it does not bind to a named parameter",
-    "the emitted expires text is whatever httputil.format_timestamp returned during the call (recorded by the harness)",
+    "an argument that is falsy (None, '', 0, 0.0, False) counts as not given, as everywhere in set_cookie (so max_age=0 / expires=0 request nothing)",
     "a handler is a sequence of cookie calls and RequestHandler.clear() calls followed by one ending: finish(), finish(chunk), return (auto-finish), "
     "raise Finish, send_error(status), raise HTTPError(status), a MissingArgumentError from get_argument, another uncaught exception, or redirect(url); "
     "statuses for send_error/HTTPError come from {400,401,403,404,405,410,429,500,503,599,304,200} (204 and 1xx make write_error's body trip finish()'s "
@@ -42,23 +51,29 @@ ASSUMPTIONS = [
 RULE = ("handlers making 1-5 set_cookie/clear_cookie/set_signed_cookie calls (optionally interleaved with clear()) and ending in finish / "
         "send_error / raise HTTPError / uncaught exception / Finish / redirect / auto-finish, over names/values/attributes with separators, quotes, "
         "backslashes, controls, DEL, non-ASCII, non-latin-1, plus every single byte 0-255 (and 8 wide code points) at start/middle/end "
-        "of every cookie field, plus every ending x 8 cookie programs x every placement of clear(); non-trivial = at least one Set-Cookie line was emitted and read back; distinct by canonical JSON")
+        "of every cookie field, plus every ending x 14 cookie programs (incl. cookies flush could not send, calls that raise after a returned call, every way to ask for an expiry) x every placement of clear(); clock pinned; non-trivial = at least one Set-Cookie line was emitted and read back; distinct by canonical JSON")
 EXHAUSTIVE = {"quick": True, "thorough": True}
 CLAUSES = {
     "either that call raises or the response is sent with a Set-Cookie header that parse_cookie reads back as exactly that name and value":
-        "set_then_parse + unquote_quote; ending_keeps_cookies (the response carries the jar's cookies whichever way the handler ends - "
-        "finish, send_error, raise HTTPError, uncaught exception, redirect - and across clear())",
+        "returned_call_sent (run level: any handler, any ending, any call that returned and is not overwritten by a later RETURNING call of "
+        "the same name: the response is .ok and holds a Set-Cookie whose first part parse_cookie reads as {name: value} of that call) = "
+        "response_always_sent + flush_never_fails (every Morsel that enters the jar passed flush's own checks: fix dc0f039) + "
+        "raised_call_no_effect (fix 1aefcde) + accepted_readback (= set_then_parse + unquote_quote composed with the accepted call) + "
+        "ending_keeps_cookies (definitional on the model side - endState does not touch the jar; its weight is the tie: 37 endings enumerated)",
     "carrying exactly the requested attributes, with no extra attributes or cookies":
-        "accepted_attrs_exact / accepted_attrs_exact_jar (every accepted call: the client reads name=coded followed by exactly the "
-        "requested attributes) = attrs_exact (for every Morsel whose text attributes hold no ';') + accepted_morsel_clean "
-        "(every accepted call builds such a Morsel, given a ';'-free format_timestamp text; accepted_morsel_strict: no control "
-        "characters either) + accepted_attrs_args (without deprecated keywords the attributes are the call's own arguments) + "
-        "jar_names_unique",
-    "Setting the same name twice in one response emits only the last setting": "last_wins + jar_names_unique",
-    "set_signed_cookie / clear_cookie": "tie: both delegate to set_cookie; the harness feeds the model the signed value / expiry they computed",
+        "accepted_attrs_kwargs (any call, deprecated keywords included: the client reads name=_quote(value) followed by exactly requested(M) where M = "
+        "the Morsel of the call's named arguments overridden in order by morsel[k]=v per keyword) + accepted_attrs_args (no keywords: the list written "
+        "out argument by argument) + accepted_attrs_exact(_jar) / attrs_exact / accepted_morsel_clean / accepted_morsel_strict (no ';' / control "
+        "character in any text emitted verbatim, given a ';'-free expires text) + jar_names_unique. 'No extra cookies' across pairs (the joined "
+        "Cookie header a browser sends) is tie + oracle only: parse_cookie('; '.join(name=value parts)) is diffed with the model and must be the dict of all cookies set",
+    "the expires attribute is the requested moment": "tie + oracle only: clock pinned, expected IMF-fixdate computed by the harness from the arguments "
+        "(the Lean model takes the expires text as an input; its only proved property is that a ';'-free text cannot add attributes)",
+    "Setting the same name twice in one response emits only the last setting": "last_wins + jar_names_unique (+ returned_call_sent: 'last' = the last call that returned)",
+    "set_signed_cookie / clear_cookie": "tie only: both delegate to set_cookie; the harness feeds the model the signed value they computed; clear_cookie's value '' and "
+        "expiry NOW - 365 d are expected by the oracle from the case",
 }
 PARALLEL = True
-CASE_TIMEOUT = 90
+CASE_TIMEOUT = 900      # a loaded machine (load average > 200) makes the first case of a forked worker take minutes
 
 COOKIE_FIELDS_STR = [f for f in c07.FIELDS_STR if f.split(".")[0] in ("cookie", "clear", "signed")] + \
     ["cookie.kw.SameSite", "cookie.kw.MaxAge", "clear.kw.Domain"]
@@ -119,7 +134,7 @@ def _rcookie(rng, names):
             if key.lower() in ("httponly", "secure") and rng.random() < 0.7:
                 kw.append([key, ["f", rng.random() < 0.6]])
             else:
-                kw.append([key, S(rng.choice(["x", "1", "a b", "", "a;b", "é", "t ", "a,b", "q\"r", "Thu, 01 Jan 2026 00:00:00 GMT", "x\x7f", "x\ty"])
+                kw.append([key, S(rng.choice(["x", "1", "a b", "", "a;b", "é", "t ", "a,b", "q\"r", "Thu, 01 Jan 2026 00:00:00 GMT", "x\x7f", "x\ty", "€", " x"])
                                   if rng.random() < 0.75 else _rs(rng))])
     via = rng.choice(["set", "set", "set", "set", "clear", "signed"])
     surrogate = any(0xD800 <= ord(ch) <= 0xDFFF for ch in name + value)
@@ -135,8 +150,8 @@ def _rcookie(rng, names):
                secure=rng.random() < 0.25, kwargs=kw, via=via)
     if via == "set":
         c["max_age"] = opt([0, 1, 3600, -5, 10 ** 12])
-        c["expires"] = opt([0, 1, 86400 * 365, 1.5e9, 2 ** 31, 0.0])
-        c["expires_days"] = opt([0, 1, 30, -1, 0.5], 0.2)
+        c["expires"] = opt([0, 1, 86400 * 365, 1.5e9, 2 ** 31, 0.0, 951782400, 951868799.9, 4102444800])     # 2000-02-29, its last second, 2100-01-01
+        c["expires_days"] = opt([0, 1, 30, -1, 0.5, 365, 366 * 4], 0.2)
     elif via == "signed":
         c["expires_days"] = rng.choice([30, 30, None, 1])
         c["max_age"] = opt([0, 60], 0.2)
@@ -154,7 +169,18 @@ def ending_programs():
     yield "overwrite", [sc(cookie(S("sid"), S("old"), secure=True)), sc(cookie(S("sid"), S("new"), path="/p"))]
     yield "set+clear-same", [sc(cookie(S("sid"), S("v1"))), sc(cookie(S("sid"), S(""), via="clear"))]
     yield "expires", [sc(cookie(S("a"), S("1"), expires=86400 * 365)), sc(cookie(S("b"), S("2"), expires_days=1, kwargs=[["Comment", S("c;d")]]))]
-    yield "wide-value", [sc(cookie(S("ok"), S("1"))), sc(cookie(S("w"), S("\u20ac")))]     # the cookie loop of flush raises
+    # cookies flush cannot send (non-latin-1 text, a header value ending in a space): the call must raise, the others must be sent
+    yield "wide-value", [sc(cookie(S("ok"), S("1"))), sc(cookie(S("w"), S("\u20ac")))]
+    yield "wide-domain", [sc(cookie(S("a"), S("b"), domain="\u20ac.org")), sc(cookie(S("ok"), S("1")))]
+    yield "wide-over", [sc(cookie(S("a"), S("1"))), sc(cookie(S("a"), S("2"), path="/\u0100"))]
+    yield "kw-trailing-space", [sc(cookie(S("ok"), S("1"))), sc(cookie(S("a"), S("b"), kwargs=[["Version", S("1 ")]]))]
+    # a call that raises after an earlier call returned: same name (bad keyword key after a good one), other name
+    yield "raise-after-set", [sc(cookie(S("a"), S("first"), secure=True)),
+                              sc(cookie(S("a"), S("second"), kwargs=[["Domain", S("d")], ["bogus", S("x")]]))]
+    yield "raise-other-name", [sc(cookie(S("a"), S("first"))), sc(cookie(S("b"), S("second"), kwargs=[["bogus", S("x")]]))]
+    # every way to ask for an expiry
+    yield "expires-days", [sc(cookie(S("a"), S("1"), expires_days=0)), sc(cookie(S("b"), S("2"), expires=0, expires_days=30)),
+                           sc(cookie(S("c"), S("3"), expires=1.5e9, expires_days=30)), sc(cookie(S("d"), S("4"), expires_days=-1))]
 
 
 def ending_cases():
@@ -236,17 +262,76 @@ def case_end(case):
     return case.get("end") or ["finish"]
 
 
+NOW = 1790000000          # the instant tornado.web's datetime.now() is pinned to
+_DAYS = ["Mon", "Tue", "Wed", "Thu", "Fri", "Sat", "Sun"]
+_MONTHS = ["Jan", "Feb", "Mar", "Apr", "May", "Jun", "Jul", "Aug", "Sep", "Oct", "Nov", "Dec"]
+
+
+def fixdate(ts):
+    """IMF-fixdate (RFC 9110 5.6.7) of a POSIX timestamp, computed here (days-to-civil), not by email.utils / time"""
+    import math
+    t = math.floor(ts)
+    days, rem = divmod(t, 86400)
+    z = days + 719468
+    era = z // 146097
+    doe = z - era * 146097
+    yoe = (doe - doe // 1460 + doe // 36524 - doe // 146096) // 365
+    y = yoe + era * 400
+    doy = doe - (365 * yoe + yoe // 4 - yoe // 100)
+    mp = (5 * doy + 2) // 153
+    d = doy - (153 * mp + 2) // 5 + 1
+    m = mp + 3 if mp < 10 else mp - 9
+    if m <= 2:
+        y += 1
+    return "%s, %02d %s %04d %02d:%02d:%02d GMT" % (_DAYS[(days + 3) % 7], d, _MONTHS[m - 1], y, rem // 3600, rem % 3600 // 60, rem % 60)
+
+
+def expected_expires(c):
+    """the expires text this call asks for, from its arguments alone (clock pinned at NOW); None = no expires attribute"""
+    if c["via"] == "clear":
+        return fixdate(NOW - 365 * 86400)
+    e, d = (None if c["via"] == "signed" else c["expires"]), c["expires_days"]
+    if e:
+        return fixdate(e)
+    if d is not None:
+        return fixdate(NOW + d * 86400)
+    return None
+
+
+def _pin_clock(web):
+    """tornado.web reads the clock through its module global `datetime`: give it a copy whose datetime.now() is NOW"""
+    import datetime as _dt, types
+    if getattr(web.datetime, "_verif_pinned", False):
+        return
+
+    class _Meta(type):
+        def __instancecheck__(cls, x):
+            return isinstance(x, _dt.datetime)
+
+    class PinnedDatetime(_dt.datetime, metaclass=_Meta):
+        @classmethod
+        def now(cls, tz=None):
+            return _dt.datetime.fromtimestamp(NOW, tz)
+
+    shim = types.ModuleType("datetime")
+    shim.__dict__.update({k: v for k, v in vars(_dt).items() if not k.startswith("__")})
+    shim.datetime = PinnedDatetime
+    shim._verif_pinned = True
+    web.datetime = shim
+
+
 _ENV = {}
 
 
 def _env():
-    """per-process handler/application of our own on top of C07's virtual loop, fake transport and date recorder"""
+    """per-process handler/application of our own on top of C07's virtual loop and fake transport; clock pinned"""
     import os
     if _ENV and _ENV["pid"] == os.getpid():
         return _ENV
     _ENV.clear()
     base = c07._env()
     import tornado.web, tornado.httpserver, tornado.httputil
+    _pin_clock(tornado.web)
     rec = tornado.httputil.format_timestamp._verif_rec
 
     class H(tornado.web.RequestHandler):
@@ -364,6 +449,12 @@ def run_impl(case):
             out["readback"].append([list(p) for p in httputil.parse_cookie(first).items()])
         except Exception as e:
             out["readback"].append("Uncaught:" + type(e).__name__)
+    # what the next request carries: every name=value part in one Cookie header
+    out["cookie_header"] = "; ".join(s.split(";", 1)[0] for s in sc)
+    try:
+        out["readback_all"] = [list(p) for p in httputil.parse_cookie(out["cookie_header"]).items()]
+    except Exception as e:
+        out["readback_all"] = "Uncaught:" + type(e).__name__
     return out
 
 
@@ -379,9 +470,10 @@ def model_requests(case, impl):
         if op[0] == "clear":
             ops.append(atom("clear"))
         else:
-            ops.append([atom("cookie"), c07.cookie_wire(op[1], impl["dates"][i] if i < len(impl["dates"]) else [],
+            exp = expected_expires(op[1])          # from the case, never from the implementation
+            ops.append([atom("cookie"), c07.cookie_wire(op[1], [exp] if exp else [],
                                                         impl["signed"][i] if i < len(impl["signed"]) else [])])
-    return [line(ID, "serve", [ops, end_wire(case_end(case))])]
+    return [line(ID, "serve", [ops, end_wire(case_end(case))]), line(ID, "parse", impl["cookie_header"])]
 
 
 def end_wire(end):
@@ -405,16 +497,17 @@ def model_result(case, replies):
         return {"quote": _vals(replies[0])[0], "unquote": _vals(replies[1])[0], "parse": [list(p) for p in _vals(replies[2])[0]]}
     v = _vals(replies[0])
     outs = [str(x) for x in v[0]]
+    back = [list(p) for p in _vals(replies[1])[0]]
     if isinstance(v[1], Atom):
-        return {"outs": outs, "finish": str(v[1]), "status": None, "set_cookie": []}
-    return {"outs": outs, "finish": "ok", "status": v[2], "set_cookie": list(v[1])}
+        return {"outs": outs, "finish": str(v[1]), "status": None, "set_cookie": [], "readback_all": back}
+    return {"outs": outs, "finish": "ok", "status": v[2], "set_cookie": list(v[1]), "readback_all": back}
 
 
 def impl_view(case, impl):
     if "text" in case:
         return impl
     return {"outs": impl["outs"], "finish": impl["finish"], "status": impl["status"] if impl["finish"] == "ok" else None,
-            "set_cookie": impl["set_cookie"]}
+            "set_cookie": impl["set_cookie"], "readback_all": impl["readback_all"]}
 
 
 # ------------------------------------------------------------------------------------------------ oracle
@@ -425,7 +518,7 @@ def spec_requests(case, impl):
     return [line(ID, "read", s) for s in impl["set_cookie"]]
 
 
-def requested(c, dates, signed):
+def requested(c, signed):
     """name, value and attribute dict the application asked for in this call (lower-case attribute names)."""
     name, value = pyval(c["name"]), pyval(c["value"])
     if c["via"] == "clear":
@@ -437,8 +530,9 @@ def requested(c, dates, signed):
     a = {}
     if c["domain"]:
         a["domain"] = c["domain"]
-    if dates:
-        a["expires"] = dates[-1]
+    exp = expected_expires(c)
+    if exp:
+        a["expires"] = exp
     if c["path"]:
         a["path"] = c["path"]
     if c["max_age"] and c["via"] != "clear":
@@ -468,8 +562,13 @@ def spec_violation(case, impl, replies):
     if "text" in case:
         return None
     from tornado import httputil
+    calls = [(i, op[1], out) for i, (op, out) in enumerate(zip(case["ops"], impl["outs"])) if op[0] == "setCookie"]
     if impl["finish"] not in ("ok", "not-called"):
-        return None if not impl["set_cookie"] else "emitted-after-reject: finish raised %s but Set-Cookie lines were written" % impl["finish"]
+        if impl["set_cookie"]:
+            return "emitted-after-reject: finish raised %s but Set-Cookie lines were written" % impl["finish"]
+        if any(out == "ok" for _, _, out in calls):
+            return "response-not-sent: a cookie call returned, then the first finish() raised %s - no response is sent at all" % impl["finish"]
+        return None
     # finish returned - or was never reached (no response at all): then every cookie whose call returned is owed
     # what each emitted line says, by cookie name
     seen = {}
@@ -482,27 +581,33 @@ def spec_violation(case, impl, replies):
         if nm in seen:
             return "duplicate-cookie: two Set-Cookie lines for %r" % nm
         seen[nm] = (s, first, attrs, back)
-    last = {}
+    last = {}                   # name -> the last call for it that RETURNED: that is the setting the response owes
+    raised_after = {}           # name -> a call for it raised after that one (it must have had no effect)
     attempted = set()
-    for i, (op, out) in enumerate(zip(case["ops"], impl["outs"])):
-        if op[0] != "setCookie":
-            continue            # clear() resets headers and body; the property's demand on earlier cookies stands
-        c = op[1]
+    for i, c, out in calls:     # clear() resets headers and body; the property's demand on earlier cookies stands
         try:
-            name, value, want = requested(c, impl["dates"][i], impl["signed"][i])
+            name, value, want = requested(c, impl["signed"][i])
         except UnicodeDecodeError:
             continue
         attempted.add(name)
-        last[name] = (out, value, want, c)
-    for name, (out, value, want, c) in last.items():
-        if out != "ok":
-            continue            # the last call for this name raised: the property makes no demand
+        if out == "ok":
+            last[name] = (value, want, c)
+            raised_after[name] = False
+        else:
+            raised_after[name] = True
+    for nm in seen:
+        if nm not in last:
+            if nm in attempted:
+                return "raised-call-effect: Set-Cookie for %r although every call naming it raised" % nm
+            return "extra-cookie: Set-Cookie for %r which no call named" % nm
+    for name, (value, want, c) in last.items():
+        blame = "raised-call-effect: (a later call for %r raised) " % name if raised_after[name] else ""
         if name not in seen:
-            return "cookie-missing: %r was set (call returned) but no Set-Cookie line names it (ending %r, status %r, finish %s)" % (
+            return blame + "cookie-missing: %r was set (call returned) but no Set-Cookie line names it (ending %r, status %r, finish %s)" % (
                 name, case_end(case), impl["status"], impl["finish"])
         s, first, attrs, back = seen[name]
         if back != [[name, value]]:
-            return "readback-differs: parse_cookie(%r) = %r, set %r=%r" % (first, back, name, value)
+            return blame + "readback-differs: parse_cookie(%r) = %r, set %r=%r" % (first, back, name, value)
         got = {}
         for k, v in attrs:
             k = k.lower()
@@ -512,13 +617,15 @@ def spec_violation(case, impl, replies):
         if "comment" in want and "comment" in got and got["comment"] is not None:
             got["comment"] = httputil._unquote_cookie(got["comment"])
         if got != want:
-            return "attributes-differ: requested %r, emitted %r (%r)" % (want, got, s)
+            if got.get("expires") != want.get("expires") and {**got, "expires": None} == {**want, "expires": None}:
+                return blame + "expires-differs: requested %r, emitted %r (%r)" % (want.get("expires"), got.get("expires"), s)
+            return blame + "attributes-differ: requested %r, emitted %r (%r)" % (want, got, s)
         if "expires" in got and not any(k.lower() == "expires" for k, _ in c["kwargs"]):
             if not c07.DATE_RE.match(got["expires"] or ""):
                 return "bad-expires: %r" % (got["expires"],)
-    for nm in seen:
-        if nm not in attempted:
-            return "extra-cookie: Set-Cookie for %r which no call named" % nm
+    # the next request: all pairs in one Cookie header must read back as exactly the cookies set
+    if impl["readback_all"] != [[nm, last[nm][0]] for nm in seen]:
+        return "joined-readback-differs: parse_cookie(%r) = %r" % (impl["cookie_header"], impl["readback_all"])
     return None
 
 
